@@ -8,6 +8,10 @@ Model description (JSON-able, the replay format):
            "refs": [ref ..], "cells": [cells ..], "spaces": [space ..]}
   ref   = {"name": .., "val": valspec, "mode": "auto"|"absolute"|"relative"}
   valspec = {"lit": canon} | {"pick": canon} | {"obj": "A.Ch" | "A.Ch.foo"} | {"mod": "math"}
+          | {"kind": <value kind of exportvals.py>, "alt": n}   (objects of every sort a reference may hold)
+          | {"same_as": <name of an earlier reference of the same space / model>}   (the SAME object)
+          | {"pandas": "frame" | "series", "path": "data/x.csv", "file_type": "csv" | "excel"}
+            (a pandas object associated with a PandasData IOSpec: `new_pandas`)
   cells = {"name": .., "src": "def .." | "lambda ..", "cached": bool}
 Spaces are created in list order (depth first, a space before its children); bases must
 precede.  References are assigned after all spaces and cells exist (so that object-valued
@@ -55,7 +59,12 @@ def _get(m, dotted):
     return obj
 
 
-def _value(m, spec):
+def _value(m, spec, earlier=None):
+    if "kind" in spec:
+        from . import exportvals
+        return exportvals.make(spec)
+    if "same_as" in spec:
+        return earlier[spec["same_as"]]
     if "lit" in spec:
         return R.uncanon(spec["lit"])
     if "pick" in spec:
@@ -88,13 +97,30 @@ def build(desc):
                 cells = s.new_cells(c["name"], formula=c["src"])
             if not c.get("cached", True):
                 cells.is_cached = False
+    gvals = {}
     for r in desc.get("grefs", []):
-        setattr(m, r["name"], _value(m, r["val"]))
+        if "pandas" in r["val"]:
+            gvals[r["name"]] = _new_pandas(m, r)
+            continue
+        gvals[r["name"]] = _value(m, r["val"], gvals)
+        setattr(m, r["name"], gvals[r["name"]])
     for path, sp in iter_spaces(desc):
         s = made[path]
+        vals = dict(gvals)
         for r in sp.get("refs", []):
-            s.set_ref(r["name"], _value(m, r["val"]), r.get("mode", "auto"))
+            if "pandas" in r["val"]:
+                vals[r["name"]] = _new_pandas(s, r)
+                continue
+            vals[r["name"]] = _value(m, r["val"], vals)
+            s.set_ref(r["name"], vals[r["name"]], r.get("mode", "auto"))
     return m
+
+
+def _new_pandas(parent, r):
+    from . import exportvals
+    spec = r["val"]
+    data = exportvals.pandas_value(spec["pandas"])
+    return parent.new_pandas(r["name"], spec["path"], data, file_type=spec["file_type"])
 
 
 def eval_model(m, queries):
